@@ -34,7 +34,7 @@ def run(prog, rep):
     rep.expect_min("C17.probe", 2)
     rep.expect_min("C17.result", 3)
     rep.expect_min("C17.default", 2)
-    rep.expect_min("C17.inrange", 2)
+    rep.expect_min("C17.inrange", 3)
     rep.expect_min("C17.all", 1)
     from .purity import row as _stateless_row
     rep.part(_stateless_row, prog, rep, "C17", 2)
@@ -319,6 +319,35 @@ def inter(prog, rep):
         okm = got == {(">=", 0, 0), (">=", 1, 0), ("<=", 0, 1), ("<=", 1, 1)} and len(parts) == 4 and all(mentions(c, T) for c in parts)
         why = f"a candidate is a crossing iff BOTH segment parameters lie in [0, 1]: t0 >= 0, t1 >= 0, t0 <= 1, t1 <= 1 (inclusive); found {sorted(map(str, got))}"
     rep.check(okm, "C17.inrange", f"{q}:range", fn.where(), "0 <= t0 <= 1 and 0 <= t1 <= 1", why)
+    # a candidate whose 4x4 system is singular (parallel segments with overlapping boxes) has no solution: its column of T must be marked
+    # out of range - the buffer starts as zeros, and a zero column PASSES 0 <= t <= 1, i.e. reports a crossing at (0, 0)
+    tname = None
+    tinit = None
+    for tr_ in ast.walk(fn.node):
+        if isinstance(tr_, ast.Try):
+            for s_ in tr_.body:
+                if isinstance(s_, ast.Assign) and isinstance(s_.targets[0], ast.Subscript) and isinstance(s_.targets[0].value, ast.Name) \
+                        and any(isinstance(c_, ast.Call) and isinstance(c_.func, ast.Attribute) and c_.func.attr == "solve" for c_ in ast.walk(s_.value)):
+                    tname = s_.targets[0].value.id
+    for st in cfg.all_stmts():
+        if isinstance(st, ast.Assign) and isinstance(st.targets[0], ast.Name) and st.targets[0].id == tname and not cfg.enclosing_loops(st):
+            tinit = b.term(st.value, st)
+    safe_init = tinit is not None and tinit[0] == "call" and tinit[1] == G("numpy.full") and len(tinit[2]) == 2 and tinit[2][1] in (G("numpy.nan"), G("numpy.inf"))
+    handlers = [h for h in ast.walk(fn.node) if isinstance(h, ast.ExceptHandler)]
+    solves = [n for n in ast.walk(fn.node) if isinstance(n, ast.Call) and isinstance(n.func, ast.Attribute) and n.func.attr == "solve"]
+    bad_h = []
+    for h in handlers:
+        marks = [s_ for s_ in ast.walk(h) if isinstance(s_, ast.Assign) and isinstance(s_.targets[0], ast.Subscript) and isinstance(s_.targets[0].value, ast.Name)
+                 and s_.targets[0].value.id == tname and ast.unparse(s_.value).replace("numpy", "np") in ("np.inf", "np.nan", "-np.inf", "float('inf')", "float('nan')", "np.NaN")]
+        leaves = any(isinstance(s_, ast.Raise) for s_ in ast.walk(h))
+        if not marks and not leaves and not safe_init:
+            bad_h.append(h)
+    if solves and tname is not None:
+        rep.check(bool(handlers) and not bad_h, "C17.inrange", f"{q}:singular", fn.where(bad_h[0]) if bad_h else fn.where(),
+                  "a candidate without a solution is marked out of range (inf / nan)",
+                  "the handler of a singular system leaves the candidate's column of T as it is: T starts as np.zeros, a zero column satisfies 0 <= t <= 1, so every pair of "
+                  "parallel segments with overlapping bounding boxes adds a spurious crossing at (0, 0) - the square [[0,-3],[2,-3],[2,-1],[0,-1]] probed at x = 0 gets the "
+                  "design condition (0, 0) instead of (0, -1); store np.inf (or nan) into T[:, i]")
 
 
 # --------------------------------------------------------------- candidates
